@@ -10,7 +10,7 @@ import ast
 
 from ..engine.srcmodel import AnalysisError, Model, dotted, stmt_text, walk_local
 from ..engine.report import RuleResult
-from .common import finding, operand_helper_calls
+from .common import finding, operand_helper_calls, expand_bool_temporaries
 from .rounding import builtin_round_sites, bound_symbols, half_up_helper, helper_problem
 
 
@@ -349,9 +349,11 @@ def r06_6(ctx, counts: dict[str, int]) -> RuleResult:
         for t in [x for x in walk_local(f.node) if isinstance(x, ast.BoolOp)
                   and isinstance(x.op, ast.And)]:
             txt = stmt_text(t)
-            if f'{divisor} == 0' not in txt or 'float' not in txt:
+            nodes = expand_bool_temporaries(f, t)       # named sub-conditions are inlined
+            if f'{divisor} == 0' not in txt or not any(
+                    isinstance(c, ast.Name) and c.id == 'float' for c in nodes):
                 continue
-            subjects = {stmt_text(c.args[0]) for c in ast.walk(t) if isinstance(c, ast.Call)
+            subjects = {stmt_text(c.args[0]) for c in nodes if isinstance(c, ast.Call)
                         and dotted(c.func) == 'isinstance' and len(c.args) == 2
                         and 'float' in stmt_text(c.args[1])}
             n += 1
